@@ -30,7 +30,7 @@ class Byte(Expression):
 
     def argumentize(self, out, flags):
         wrap = Code('_wrap_byte_literal')
-        value = self.argumentize(out, flags)
+        value = Expression.argumentize(self, out, flags)
         return out.var('arg', wrap(self.value, value))
 
     def constantize(self):
